@@ -14,9 +14,13 @@ META = dict(
     level_text="Unbounded theorems: memory-less identity, convex recurrence with e_k=(k-n_burn)^-p in (0,1), unrolled convex "
                "combination (weights >= 0, sum 1), burn_in flag, power guard <-> ]0.5,1], length = explicit count or floor(frac*n). "
                "The decision rules are regenerated from mcmc_saem.py / algo_with_samplers.py on every run and proved equal to the "
-               "model; the real _maximization_step is driven over an exhaustive small grid and compared inside Coq.",
+               "model; the real _maximization_step is driven over an exhaustive small grid and compared inside Coq. "
+               "Run level (extension): on the control flow of a fit regenerated from the source (GenC11.v) the key events are, for counter "
+               "1..n_iter in order, every sampler, one statistics event, one maximisation, the temperature update, and the k-th maximisation is "
+               "handed S_k of the recurrence (C05_src_run_events, C05_src_run_schedule: every configuration, n_burn_in, power, statistic sequence); "
+               "mean_posterior / mode_posterior resolve the memory-less length through the same constructor (class hierarchy read from the source).",
     level_note="Trusted: Coq kernel; stdlib real-number axioms (sig_not_dec, sig_forall_dec, functional_extensionality_dep, classic) as "
-               "printed by Print Assumptions; python-ast translator (pysym); Coq-Interval for the generated step-size lemmas only; "
+               "printed by Print Assumptions; python-ast translators (pysym, c05_run, C11's c11_run: named events matched on normalised text); Coq-Interval for the generated step-size lemmas only; "
                "float product fl(frac*n_iter) taken from the implementation (theorem is over exact rationals); torch element-wise arithmetic.",
     design_ref="DESIGN.md section 4 C05",
 )
@@ -30,6 +34,7 @@ OBLIGATIONS = [
     "C05_settings_explicit_count", "C05_settings_default_fraction",
     # the schedule ON THE RUN: control flow regenerated from the source (GenC11.v) composed with the regenerated rules (GenC05.v)
     "C05_src_shape", "C05_src_run_events", "C05_src_run_log", "C05_src_run_schedule", "C05_src_run_schedule_example",
+    "C05_src_log_observed",
 ]
 
 PERSO_ALGOS = ("mean_posterior", "mode_posterior")     # share AlgorithmWithSamplersMixin with the fit algorithm
@@ -414,6 +419,30 @@ def check(run: Run):
             pass
         except Exception as e:
             run.fail(f"constructor-raises:{type(e).__name__}{tag}", f"{algo_name}: (None, None): {type(e).__name__}: {e}", dict(algorithm=algo_name))
+    # the phase test the personalisation algorithms evaluate is the mixin's: `_is_burn_in()` of the BUILT object over k = 1..n_iter
+    pcases, pmeta = [], []
+    for algo_name in PERSO_ALGOS:
+        for n_iter in range(1, 12):
+            for nbx in range(0, n_iter + 1):
+                try:
+                    algo = make_algo(n_iter, n_burn=nbx, frac_=None, name=algo_name)
+                    for k in range(1, n_iter + 1):
+                        algo.current_iteration = k
+                        f = bool(algo._is_burn_in())
+                        run.case(("perso-phase", algo_name, n_iter, nbx, k), nontrivial=k >= nbx)
+                        pcases.append(f"({coq_Z(k)}, {coq_Z(nbx)}, {coq_bool(f)})")
+                        pmeta.append(dict(algorithm=algo_name, n_iter=n_iter, n_burn_in_iter=nbx, k=k, is_burn_in=f))
+                        if f != (k <= nbx):
+                            run.fail(f"phase-test:{algo_name}:k-nb={k - nbx}", f"{algo_name}: _is_burn_in() at iteration k is not (k <= n_burn_in_iter)",
+                                     pmeta[-1], expected=k <= nbx, observed=f)
+                except Exception as e:
+                    run.fail(f"constructor-raises:{type(e).__name__}:{algo_name}", f"{algo_name}: {type(e).__name__}: {e}",
+                             dict(algorithm=algo_name, n_iter=n_iter, n_burn_in_iter=nbx, n_burn_in_iter_frac=None))
+    bad = run.vm_bad_indices("persophase", hdr, "Z * Z * bool", pcases,
+                             "(fun c => match c with (k, nb, f) => Bool.eqb (is_burn_in k nb) f && Bool.eqb (gen_is_burn_in k nb) f end)")
+    for i in bad or []:
+        m = pmeta[i]
+        run.fail(f"phase-test:{m['algorithm']}:k-nb={m['k'] - m['n_burn_in_iter']}", "personalisation: phase test differs from the model's / the regenerated `_is_burn_in`", m)
     bad = run.vm_bad_indices("nburn", hdr, "Q * Z", ncases,
                              "(fun c => match c with (x, nb) => Z.eqb (Qtrunc x) nb end)")
     for i in bad or []:
@@ -594,11 +623,14 @@ def run_order_oracle(run: Run, ev, log, cfg):
                      "the j-th maximisation of the run evaluates the phase test / the step / the burn_in flag at a counter value other than j",
                      dict(cfg, maximisation=j, current_iteration_seen=r["k"]), expected=j, observed=r["k"])
             break
-    # split the events into the n_iter iterations: an iteration ends with its temperature update
+    # split the events into iterations: an iteration ends with its maximisation.  Where the temperature update stands is NOT part
+    # of the property (it touches the temperature registers only): it is left out here — only the Coq statement says where the source has it
     chunks, cur = [], []
     for c, i in ev:
-        cur.append((c, i))
         if c == 14:
+            continue
+        cur.append((c, i))
+        if c == 13:
             chunks.append(cur)
             cur = []
     if cur:
@@ -606,17 +638,17 @@ def run_order_oracle(run: Run, ev, log, cfg):
     for j, ch in enumerate(chunks, 1):
         codes = [c for c, _ in ch]
         ns = codes.count(11)
-        if codes != [11] * ns + [12, 13, 14] or ns == 0:
+        if codes != [11] * ns + [12, 13] or ns == 0:
             shape = "-".join(names[c] for c, g in itertools.groupby(codes))
-            run.fail(f"iteration-order:{shape}", "events of one iteration are not: every sampler, the sufficient statistics, the maximisation, "
-                     "the temperature update", dict(cfg, iteration=j, events=[names[c] for c in codes]))
+            run.fail(f"iteration-order:{shape}", "events of one iteration are not: every sampler, then the sufficient statistics, then the maximisation",
+                     dict(cfg, iteration=j, events=[names[c] for c in codes]))
             return
         if any(i != j for _, i in ch):
-            run.fail("iteration-counter", "an event of iteration j does not see self.current_iteration == j",
+            run.fail("iteration-counter", "a sampler / statistics / maximisation call of iteration j does not see self.current_iteration == j",
                      dict(cfg, iteration=j, counters=[i for _, i in ch]))
             return
     if len(chunks) != n_iter:
-        run.fail("real-fit-iterations", f"{len(chunks)} iterations with a temperature update for n_iter={n_iter}", dict(cfg))
+        run.fail("real-fit-iterations", f"{len(chunks)} iterations with a maximisation for n_iter={n_iter}", dict(cfg))
 
 
 def main(run: Run):
